@@ -45,7 +45,8 @@ def main():
         rc, o = sh("VERIF_REPO=%s %s/check %s --tier quick" % (rr, rv, pid), timeout=3600)
         sh("git -C %s checkout -- ." % rr)
         viol = [l.strip() for l in o.splitlines() if l.strip().startswith("violation:")]
-        out[sid] = dict(applies=True, caught=(rc == 1), rc=rc, wall_s=round(time.time() - t0, 1),
+        keep = {k: v for k, v in (out.get(sid) or {}).items() if k == "caught_by_other"}
+        out[sid] = dict(keep, applies=True, caught=(rc == 1), rc=rc, wall_s=round(time.time() - t0, 1),
                         first=(viol[0][:240] if viol else ""), head=sh("git -C /repo rev-parse --short HEAD")[1].strip())
         print(sid, out[sid]["caught"], out[sid]["wall_s"], flush=True)
         json.dump(out, open(outp, "w"), indent=1, sort_keys=True)
